@@ -102,10 +102,16 @@ struct Conn {
     QString exchangeUser;          // user named in the current exchange (PLAIN) / in the digest response
     QString exchangeMech;
     bool digestResponseValid = false;
+    QSet<QString> validDigestUsers;   // users for whom a response computed with their real password was written on this connection
     QSet<QString> approvedUsers;   // users for whom the checker approved the presented credentials on this connection
     bool successSeen = false;
     QString boundJid;              // from the latest bind result the server sent
     QStringList boundJids;         // every address the server bound for this connection
+    // what the server has WRITTEN to this connection so far (it may not have been delivered yet): the routing oracle
+    // must not depend on the order in which the scheduler delivers to different connections
+    bool successWritten = false;
+    QStringList boundWritten;
+    simxml::Framer writtenFramer;
     QString nonce;                 // DIGEST-MD5 nonce from the server's challenge
     QByteArray outbuf;             // pipelining buffer
     bool pipelining = false;
@@ -213,6 +219,32 @@ public:
                 c.link.up = true;
                 c.link.faults = &res.faults;
                 c.link.end[0] = &c.raw;
+                c.link.onWrite = [&c](int from, const QByteArray &bytes) {
+                    if (from != 1) {
+                        return;
+                    }
+                    c.writtenFramer.feed(bytes);
+                    const auto items = c.writtenFramer.take();
+                    for (const auto &it : items) {
+                        if (it.kind != simxml::Item::Element) {
+                            continue;
+                        }
+                        QDomDocument doc;
+                        const QDomElement el = simxml::parse(it.text, doc);
+                        if (el.tagName() == QLatin1String("success")) {
+                            c.successWritten = true;
+                            const QDomElement authz = simxml::child(el, "authorization-identifier");
+                            if (!authz.isNull() && authz.text().contains(QLatin1Char('/'))) {
+                                c.boundWritten << authz.text();
+                            }
+                        } else if (el.tagName() == QLatin1String("iq") && el.attribute(QStringLiteral("type")) == QLatin1String("result")) {
+                            const QDomElement bind = simxml::child(el, "bind");
+                            if (!bind.isNull()) {
+                                c.boundWritten << simxml::child(bind, "jid").text();
+                            }
+                        }
+                    }
+                };
                 auto *sock = new SimSslSocket;
                 sock->attach(&c.link, 1);
                 c.sock = sock;
@@ -304,20 +336,41 @@ public:
                             if (origin == ci) {
                                 continue;
                             }
-                            if (!modelAuthed(o) || o.boundJid.isEmpty()) {
+                            // ground truth for the origin: what the checker approved and what the server itself has written
+                            // to the origin so far (delivered or not)
+                            const bool originAuthed = !o.approvedUsers.isEmpty() && o.successWritten;
+                            if (!originAuthed) {
                                 violation(QStringLiteral("routed_for_unauthenticated"), QStringLiteral("C16:stanza_of_unauthenticated_or_unbound_connection_routed:") + tag,
                                           QStringLiteral("connection %1 received '%2' which connection %3 sent without being authenticated and bound; from='%4'").arg(ci).arg(it.key()).arg(origin).arg(from));
                                 continue;
                             }
-                            const QString bare = o.boundJid.section(QLatin1Char('/'), 0, 0);
                             const bool sub = tag == QLatin1String("presence") && (el.attribute(QStringLiteral("type")) == QLatin1String("subscribe") || el.attribute(QStringLiteral("type")) == QLatin1String("subscribed"));
-                            if (from != o.boundJid && !(sub && from == bare) && from != bare) {
+                            bool own = false;
+                            QString bare;
+                            for (const auto &bj : std::as_const(o.boundWritten)) {
+                                const QString b = bj.section(QLatin1Char('/'), 0, 0);
+                                if (from == bj || from == b) {
+                                    own = true;
+                                    bare = b;
+                                }
+                            }
+                            Q_UNUSED(sub);
+                            // a connection that authenticated (again) but has not bound a resource yet is stamped with the bare
+                            // address of the user it authenticated as: still the sender's own address
+                            for (const auto &u : std::as_const(o.approvedUsers)) {
+                                if (from == u + QStringLiteral("@example.org")) {
+                                    own = true;
+                                    bare = from;
+                                }
+                            }
+                            if (!own) {
                                 violation(QStringLiteral("spoofed_from"), QStringLiteral("C16:routed_stanza_carries_foreign_from:") + tag,
-                                          QStringLiteral("connection %1 received '%2' with from='%3'; it was sent by connection %4 which is authenticated as %5").arg(ci).arg(it.key()).arg(from).arg(origin).arg(o.boundJid));
+                                          QStringLiteral("connection %1 received '%2' with from='%3'; it was sent by connection %4 to which the server has bound [%5]").arg(ci).arg(it.key()).arg(from).arg(origin).arg(o.boundWritten.join(QLatin1Char(','))));
+                                continue;
                             }
                             if (!o.approvedUsers.contains(bare.section(QLatin1Char('@'), 0, 0))) {
                                 violation(QStringLiteral("identity_mismatch"), QStringLiteral("C16:connection_acts_as_user_it_did_not_authenticate_as"),
-                                          QStringLiteral("connection %1 is bound as %2 but the password checker approved it only for [%3]").arg(origin).arg(o.boundJid, QStringList(o.approvedUsers.values()).join(QLatin1Char(','))));
+                                          QStringLiteral("connection %1 is bound as %2 but the password checker approved it only for [%3]").arg(origin).arg(o.boundWritten.join(QLatin1Char(',')), QStringList(o.approvedUsers.values()).join(QLatin1Char(','))));
                             }
                         }
                     }
@@ -373,7 +426,7 @@ public:
                     res.faults[QStringLiteral("password_reply_of_superseded_exchange")]++;
                 }
                 // model: the checker approved (user, password) / the digest response computed with the right password verifies
-                if (pr.approves && (!pr.digest || (c.digestResponseValid && pr.user == c.exchangeUser))) {
+                if (pr.approves && (!pr.digest || c.validDigestUsers.contains(pr.user))) {
                     c.approvedUsers.insert(pr.user);
                 }
                 currentConn = pr.conn;
@@ -469,6 +522,11 @@ public:
                             if (c.exchangeMech == QLatin1String("DIGEST-MD5")) {
                                 c.exchangeUser = QString::fromLatin1(user);
                                 c.digestResponseValid = op.arg(1) == 0 && !c.nonce.isEmpty();
+                                // several responses may be in flight in one exchange; the server verifies each against the
+                                // digest of the user it names, so knowing that user's password is what counts
+                                if (c.digestResponseValid) {
+                                    c.validDigestUsers.insert(QString::fromLatin1(user));
+                                }
                             }
                         }
                         clientWrite(ci, "<response xmlns='urn:ietf:params:xml:ns:xmpp-sasl'>" + (data.isEmpty() ? QByteArray() : data.toBase64()) + "</response>");
